@@ -81,6 +81,14 @@ def vocab():
         for params in ((), ("a",), ("a", "b")):
             for inv in (False, True):
                 v.append(("kw", kw, params, inv))
+    # degenerate parameter lists (empty members, lone anchors marks, blanks)
+    for kw in ("has_child", "max", "min", "unique", "distinct", "parent",
+               "name"):
+        for inner in (",", ",,", " ", "''", "a,", ",a", "&", "&a", "\\,",
+                      '""', "' '", "0,", "-"):
+            v.append(raw("[%s(%s)]" % (kw, inner)))
+            if inner in (",", "&", "''"):
+                v.append(raw("[!%s(%s)]" % (kw, inner)))
     v.append(raw("[has_child(a\\'b)]"))
     v.append(raw("[max(a\\'b)]"))
     for params in ((), ("0",), ("1",), ("2",), ("5",), ("x",), ("-1",),
